@@ -660,3 +660,40 @@ func labClassOf(s string) string {
 	}
 	return s
 }
+
+func init() {
+	// lab-cuelib-demo: a two-package CUE case (AddCaseCueLib) with builders; prints status and the
+	// default objects of the main package in Go and Python.
+	register("lab-cuelib-demo", func(args map[string]string, out *bufio.Writer) error {
+		opts := defaultLabOpts()
+		opts.Builders = true
+		opts.Keep = args["keep"] == "1"
+		lab, err := NewLab(labWorkDir("cuelib"), opts)
+		if err != nil {
+			return err
+		}
+		defer lab.Close()
+		libText := "package %LIB%\n\n#Kind: \"widget\"\n\nMeta: {\n\towner: string\n}\n"
+		mainText := "package %PKG%\n\nimport \"example.com/%LIB%\"\n\n#Kind: \"app-widget\"\n\nWidget: {\n\tkind: %LIB%.#Kind\n\tflavour: #Kind\n\ttitle: string\n\tmeta: %LIB%.Meta\n}\n"
+		c := lab.AddCaseCueLib(libText, mainText, opts.GoFlags, true, false, "")
+		if err := lab.Build(); err != nil {
+			return err
+		}
+		fmt.Fprintf(out, "case %s lib=%s generr=%q irgoerr=%q goOK=%v gocompile=%q pyOK=%v pyimport=%q\n", c.ID, c.LibPkg, c.GenErr, c.IRGoErr, c.GoOK, labFirstLine(c.GoCompileErr), c.PyOK, c.PyImportErr)
+		names := []string{}
+		for n := range c.Files {
+			names = append(names, n)
+		}
+		sort.Strings(names)
+		fmt.Fprintf(out, "files %s\n", strings.Join(names, " "))
+		pk := []string{}
+		for _, s := range c.IRGo {
+			pk = append(pk, s.Package)
+		}
+		fmt.Fprintf(out, "irgo packages %v builders %d objects %v\n", pk, len(c.BuildersGo), c.GoObjects)
+		rg := lab.GoCall([]LabReq{{c.ID, "Widget", "new", nil}, {c.ID, "Widget", "dec", []string{`{"kind":"widget","flavour":"app-widget","title":"t","meta":{"owner":"o"}}`}}})
+		rp := lab.PyCall([]LabReq{{c.ID, "Widget", "new", nil}, {c.ID, "Widget", "roundtrip", []string{`{"kind":"widget","flavour":"app-widget","title":"t","meta":{"owner":"o"}}`}}})
+		fmt.Fprintf(out, "go %v\npy %v\n", rg, rp)
+		return nil
+	})
+}
